@@ -16,7 +16,7 @@ type Found struct {
 	World       string   `json:"world"`
 	Seed        uint64   `json:"seed"`
 	RunIndex    uint64   `json:"run_index"`
-	Trace       []uint32 `json:"trace"`
+	Trace       Trace    `json:"trace"` // per stream: generation, scheduling, select/map orders, I/O chunking
 	OrigLen     int      `json:"original_trace_len"`
 	ShrinkTests int      `json:"shrink_tests"`
 	Log         []string `json:"log"`
@@ -267,8 +267,8 @@ func WorkerMain(t *testing.T) {
 		o, hung := runGuarded(w, &RunCtx{T: t, Ch: ch, Prop: prop, Tier: tier})
 		if hung {
 			res.Evaluations++
-			trace := append([]uint32(nil), ch.Rec...)
-			f := &Found{World: w.Name, Seed: seed, RunIndex: idx, Trace: trace, OrigLen: len(trace), Hang: true, LogHash: "hang"}
+			trace := ch.Rec.clone()
+			f := &Found{World: w.Name, Seed: seed, RunIndex: idx, Trace: trace, OrigLen: trace.Len(), Hang: true, LogHash: "hang"}
 			f.Violation = hangViolation(prop)
 			res.Found = f
 			break
@@ -338,8 +338,8 @@ func writeJSON(path string, v any) {
 	}
 }
 
-func minimise(t *testing.T, w *World, prop, tier string, known []KnownFinding, v Violation, trace []uint32, seed, idx uint64, budget time.Duration) *Found {
-	test := func(cand []uint32) ([]uint32, bool) {
+func minimise(t *testing.T, w *World, prop, tier string, known []KnownFinding, v Violation, trace Trace, seed, idx uint64, budget time.Duration) *Found {
+	test := func(cand Trace) (Trace, bool) {
 		ch := NewReplayChooser(cand)
 		o := w.Run(&RunCtx{T: t, Ch: ch, Prop: prop, Tier: tier})
 		for _, x := range o.Violations {
@@ -354,7 +354,7 @@ func minimise(t *testing.T, w *World, prop, tier string, known []KnownFinding, v
 	ch := NewReplayChooser(min)
 	ch.Keep = true
 	o := w.Run(&RunCtx{T: t, Ch: ch, Prop: prop, Tier: tier, KeepLog: true})
-	f := &Found{World: w.Name, Seed: seed, RunIndex: idx, Trace: min, OrigLen: len(trace), ShrinkTests: tests, Log: o.Log, LogHash: fmt.Sprintf("%016x", o.LogHash), Sample: o.Sample}
+	f := &Found{World: w.Name, Seed: seed, RunIndex: idx, Trace: min, OrigLen: trace.Len(), ShrinkTests: tests, Log: o.Log, LogHash: fmt.Sprintf("%016x", o.LogHash), Sample: o.Sample}
 	f.Violation = v
 	for _, x := range o.Violations {
 		if x.Prop == v.Prop && x.Clause == v.Clause && matchKnown(known, x) == nil {
